@@ -2,8 +2,11 @@
 generator or queue.  Every request is evaluated in a forked child of that pristine state, so a reference
 stream cannot be influenced by anything the history under test did (module/class-level caches included).
 
-Protocol (stdin/stdout, binary): 4-byte little-endian length + pickle((kind, case, lineage)) ->
-4-byte length + pickle(('ok', packed) | ('err', text)).
+Protocol (stdin/stdout, binary): 4-byte little-endian length + pickle((kind, case, v)) ->
+4-byte length + pickle(('ok', value) | ('err', text)).  Kinds (see c10._ref_eval): 'g' / 'q' the packed chunks of
+one pristine generator / queue of lineage v (one per draw / pop: the references of all prefixes), 'k' / 'K' the
+value of one / several stimulus-function calls, 'h' the history under test itself (so that nothing an earlier
+case did in the checking process can influence it, and every replay is self-contained).
 """
 import pickle
 import struct
